@@ -170,6 +170,15 @@ func (g *GoBackNConn) Send(data []byte) error {
 		})
 	}
 
+	// An empty payload is still a message of its own: the loop below would
+	// not send anything for it, so send it as a single, final chunk.
+	if len(data) == 0 {
+		return sendPacket(&PacketData{
+			Payload:    data,
+			FinalChunk: true,
+		})
+	}
+
 	// Splitting is enabled. Split into packets no larger than maxChunkSize.
 	var (
 		sentBytes = 0
